@@ -195,6 +195,70 @@ def run_textfuzz(res, prop, tier, work):
     return n
 
 
+def fuzz_cli_job(job):
+    import ws, scen
+    sc, level, threads = job
+    snaps = []
+    for F in (0, 1, 2, 3):
+        w = ws.mkws('fz')
+        try:
+            scen.materialise(w, sc['tree0'], sc['series'], [('-R' if pt.get('rev') else '') for pt in sc['series']])
+            # perturb the outermost context lines of every cell block: hunks on them need fuzz `level`
+            for p, f in sc['tree0'].items():
+                if f['ex'] and f['cells']:
+                    data = open(os.path.join(w, p), 'rb').read()
+                    for k in range(1, len(f['cells']) + 1):
+                        data = data.replace(b'ctx %d.1\n' % k, b'ctx %d.1 moved\n' % k).replace(b'ctx %d.6\n' % k, b'ctx %d.6 moved\n' % k)
+                        if level >= 2:
+                            data = data.replace(b'ctx %d.2\n' % k, b'ctx %d.2 moved\n' % k)
+                    open(os.path.join(w, p), 'wb').write(data)
+            rc, so, se = ws.push(w, ['-a', '-q', '--threads', threads, '--backup', 'always', '--fuzz', F])
+            snaps.append((F, rc, ws.snapshot(w), se[-200:]))
+        finally:
+            ws.rmws(w)
+    probs = []
+    for F, rc, snap, se in snaps:
+        if ws.crashed(rc):
+            probs.append(('fuzz-cli-crash', '--fuzz %d: exit status %s: %s' % (F, rc, se)))
+    for a in snaps:
+        for b in snaps:
+            if a[0] < b[0] and a[1] == 0 and (b[1] != 0 or b[2] != a[2]):
+                diff = sorted(p for p in set(a[2]) | set(b[2]) if a[2].get(p) != b[2].get(p))
+                probs.append(('fuzz-cli-nonmonotone', 'the series applies completely with --fuzz %d but --fuzz %d gives exit %d / differs in %s' % (a[0], b[0], b[1], diff)))
+    return probs, [s_[1] for s_ in snaps]
+
+
+def run_fuzz_cli(res, tier, work):
+    """C20 at the level of the tool: scenarios whose files have perturbed outer context lines, pushed with --fuzz 0..3."""
+    import p_tool, random
+    from multiprocessing import Pool
+    rnd = random.Random(seed())
+    out, st = p_tool.enumerate_scenarios(res, 'fuzz-cli-scenarios', 'TreesSmall', 'TRUE', 2, 'Cfgs_one', work, 'TRUE')
+    lines = [l for l in open(out, errors='replace') if l.startswith('"{') and '\\"exit\\":0' in l]
+    os.unlink(out)
+    pick = rnd.sample(lines, min(len(lines), 400 if tier == 'quick' else 5000))
+    jobs = []
+    for li, line in enumerate(pick):
+        sc = json.loads(json.loads(line))
+        if sc['outs'][0]['out']['adversarial']:
+            continue
+        jobs.append((sc, 1 + li % 2, 1 + li % 3))
+    with Pool(12) as pool:
+        outs = pool.map(fuzz_cli_job, jobs, chunksize=4)
+    succ = {0: 0, 1: 0, 2: 0, 3: 0}
+    for (sc, level, threads), (probs, rcs) in zip(jobs, outs):
+        for F, rc in enumerate(rcs):
+            if rc == 0:
+                succ[F] += 1
+        for cat, msg in probs:
+            res.violation(cat, msg + ' (context perturbed to need fuzz %d, threads %d)' % (level, threads), {'tree0': sc['tree0'], 'series': sc['series'], 'perturbation_level': level, 'threads': threads})
+    res.cov['parts']['fuzz-cli-scenarios'].update({'workspaces': len(jobs), 'runs': len(jobs) * 4, 'complete_pushes_by_fuzz_limit': succ})
+    res.cov['traces_validated_against_impl'] += len(jobs) * 4
+    res.cov['evaluations'] += len(jobs) * 4
+    import ws
+    ws.cleanup_all()
+
+
 PLAN = {
     # property -> tier -> list of (module, tag, constants)
     'C02': {
@@ -276,6 +340,8 @@ def check(prop, tier):
         run_random(res, prop, RANDOM[tier], work)
         if prop in ('C02', 'C03'):
             run_textfuzz(res, prop, tier, work)
+        if prop == 'C20':
+            run_fuzz_cli(res, tier, work)
         if prop == 'C04':
             for tag, consts in KINDS[tier]:
                 run_kinds(res, tag, consts, work)
